@@ -8,6 +8,7 @@
 package quiesce
 
 import (
+	"os"
 	"regexp"
 	"runtime"
 	"sort"
@@ -15,6 +16,7 @@ import (
 	"strings"
 	"syscall"
 	"time"
+	"unsafe"
 )
 
 // G is one goroutine of a dump.
@@ -151,7 +153,46 @@ func Quiet() (bool, []G) {
 		}
 		a = b
 	}
+	// Goroutines parked in "IO wait" are parked on the kernel, not on another
+	// goroutine: with real sockets (AF_UNIX pairs; net.Pipe has no such state)
+	// bytes may sit in a receive queue whose reader the netpoller has not woken
+	// yet - on a loaded machine for longer than the dumps are apart. While any
+	// socket of this process has unread bytes the process is not quiet. (A
+	// reader that will never come leaves such bytes for good: then the wait ends
+	// by its watchdog as inconclusive, never as a verdict.)
+	for _, g := range a {
+		if g.State == "IO wait" {
+			if socketsPending() {
+				return false, a
+			}
+			break
+		}
+	}
 	return true, a
+}
+
+// socketsPending reports whether any socket descriptor of this process has
+// unread bytes in its receive queue.
+func socketsPending() bool {
+	ents, err := os.ReadDir("/proc/self/fd")
+	if err != nil {
+		return true // cannot tell: never claim quiet
+	}
+	for _, e := range ents {
+		fd, err := strconv.Atoi(e.Name())
+		if err != nil {
+			continue
+		}
+		l, err := os.Readlink("/proc/self/fd/" + e.Name())
+		if err != nil || !strings.HasPrefix(l, "socket:") {
+			continue
+		}
+		var n int32
+		if _, _, errno := syscall.Syscall(syscall.SYS_IOCTL, uintptr(fd), 0x541B /* FIONREAD */, uintptr(unsafe.Pointer(&n))); errno == 0 && n > 0 {
+			return true
+		}
+	}
+	return false
 }
 
 // Await waits for ch to be signalled (closed or sent to). If the process goes
